@@ -34,9 +34,10 @@ theorem ionic_strength_source_expressions (b z tot a c rtol atol : ℝ) :
 theorem allclose_return_guard : allcloseReturnText = "np.all(d <= lim)" := by decide
 
 /-- the array branch of `allclose` (scalar `lim`, or `lim` and `d` broadcast to their common shape, then element-wise) is
-    hand-modelled by `allcloseB`: its source text -/
+    hand-modelled by `allcloseB` for numbers and 1-d arrays: its source text, with the test "shapes differ" normalised
+    (`len(x) != len(y)` and `np.shape(x) != np.shape(y)` coincide on 1-d arrays) -/
 theorem allclose_array_branch_guard : allcloseArrayBranchText =
-    "try: len(lim) except TypeError: return np.all([_d <= lim for _d in d]) else: if len(lim) != len(d): lim, d = (lim + 0 * d, d + 0 * lim) return np.all([_d <= _lim for _d, _lim in zip(d, lim)])" := by
+    "try: len(lim) except TypeError: return np.all([_d <= lim for _d in d]) else: if shape_differs(lim, d): lim, d = (lim + 0 * d, d + 0 * lim) return np.all([_d <= _lim for _d, _lim in zip(d, lim)])" := by
   rfl
 
 /-- signatures (parameters and defaults as written in the source): the defaults that the specialised translations and the
